@@ -473,6 +473,10 @@ pub fn spec_for(prop: &str, tier: &str) -> Option<CrashSpec> {
                 vec![1, 1, 1, 1, 1, 1],
                 vec![0, 0, 0],
                 vec![over, 1],
+                // an oversized entry behind a small one: with the two-topic prefix its two-unit
+                // block ends exactly at the end of the file while the small entry sits elsewhere
+                vec![1, over],
+                vec![1, over, 1],
             ];
             let mut shapes = shapes;
             if thorough {
